@@ -35,3 +35,9 @@ chk("C07", "exploration",
     "16 array/struct shapes (depth <= 2; typed-array-backed and generic arrays, nested/embedded structs, arrays of structs, structs with pointer/slice/interface/func/64-bit/complex fields) x 32 copy contexts (every clone site read in the translator: assignment forms, arguments, variadics, results read from globals/derefs/fields and consumed directly, named results, range over slice/array/pointer-to-array/map, channel send/receive, select, map/slice/array/field store and load, composite literals, map keys, interface boxing/unboxing/type switch, value receivers through value/pointer/interface/embedding, method values and expressions, deref load/store, closures, append, copy, go/defer arguments, slice-to-array conversions, swaps, zero values) with the deepest leaf mutated on either side; about 90 aliasing probes (pointers to variables, fields, elements, package variables, pointer identity, 2- and 3-index subslices, append within/beyond capacity, array pointers from slices, maps, channels, closures, range with index writes, linked structures).",
     "Trusted: native Go as the reference. Shapes deeper than 2 and contexts not listed are not explored. Implementation-defined values (cap after growth) are never printed. GopherJS's documented refusal to convert non-numeric SUBslices to array pointers is outside the alphabet.",
     "DESIGN.md section 3 C07", "differential harness")
+
+chk("C08", "exploration",
+    "bounded exhaustive enumeration of unwinding trees inside an interpreter program + exhaustive (operation x trigger value x statement position) probes; differential against native Go (plain and minified)",
+    "(D) ALL unwinding trees of depth <= 2 (quick, ~1.1e5 trees) / 3 (thorough): each frame carries 0-2 deferred actions from {trace, recover, recover one call deeper, recover in a nested closure, re-panic, panic new, modify named result, Goexit, recover-and-set-result, recover twice} and a body from {return, panic string, panic custom error, run-time error, call child, Goexit}, each tree run in a fresh goroutine with a top-level recover, full event trace compared; (P) every panicking operation named in the property x operand values on both sides of the trigger x its position in a traced statement sequence; (S) 30 static defer/recover forms (argument and receiver evaluation at defer time, builtins, LIFO in loops, nested/replaced/re-raised panics, named results, Goexit through frames, panics in other goroutines); (E) 11 whole-program endings.",
+    "Trusted: native Go as the reference; panic texts compared by class. Known findings (evaluation-order of a panicking left-hand side vs the right-hand side, lazily created pointers/method values, defer recover(), make(map, negative)) are listed in known_findings.txt by exact case id.",
+    "DESIGN.md section 3 C08", "differential harness")
